@@ -89,19 +89,22 @@ CLAIMED: dict[str, tuple[str, str, str, str]] = {
     "C14": (
         "Lean 4 theorems about a white-box model of get_metadata_content / Metadata.from_package / all_classifiers / both table styles and about a reference RFC 822 parser + differential correspondence (model vs real METADATA/PKG-INFO; Spec.Rfc822 vs email.parser) + property oracle on generated pyprojects in both styles",
         "Machine-checked proof that rendered metadata parses under the reference RFC 822 parser into exactly the declared headers and the "
-        "description verbatim whenever no single-line field holds a line break (any other characters, any licence text, any body); that the "
+        "description verbatim EXACTLY when every single-line value is fold-safe (`render_injection_iff`: every line end is followed by a blank or "
+        "tab and the value does not end in one; `no line break at all` — the guard Factory.validate enforces — is sufficient, not necessary); that a "
+        "project accepted by the modelled validator (regenerated from factory.py every run) satisfies the guard and hence renders and parses "
+        "faithfully (`validation_implies_guard`, `validated_render_parse`, with the headers the validator does not look at listed as `Trusted`); that the "
         "indentation rule keeps every licence text inside its header; that a line break followed by `Name: value` otherwise injects exactly that "
         "header (constructive counterexample); that dynamic classifiers are duplicate-free, sorted with the Python block in place, and consist "
         "exactly of declared, range-derived and licence classifiers; and that the PEP 621 and legacy spellings configure equal Metadata. Header "
         "order, METADATA_BASE, tables and AUTHOR_REGEX are regenerated from source every run; the model is compared with real wheel METADATA "
         "and sdist PKG-INFO in both styles; Spec.Rfc822 is compared with email.parser on hostile messages.",
-        TB + "Partial: tomli, fastjsonschema, SPDX lookup, NFC normalisation, to_pep_508, canonicalize_name, format_python_constraint are inputs of the model; project_eq_legacy covers the commonly expressible fields; values compared modulo leading blanks (RFC 822 unfolding). Line-break validation was added to /repo (64d596d); two author-table findings are known.",
+        TB + "Partial: tomli, fastjsonschema, SPDX lookup, NFC normalisation, to_pep_508, canonicalize_name, format_python_constraint are inputs of the model; project_eq_legacy covers the commonly expressible fields and single printed python ranges (not unions / wildcard spellings); values compared modulo leading blanks (RFC 822 unfolding). Line-break validation was added to /repo (64d596d, extended by 11abac0 after the proof obligation exposed three unvalidated sources); two author-table findings are known. A call-history stream (same project, one free-text field re-cased, built back to back) looks for state kept between builds.",
         "DESIGN.md §4 C14",
     ),
     "C18": (
         "Lean 4 proof over executable models of __eq__/__hash__ (hash modelled by its input tree, xor commutative) + correspondence of the == matrix, hash-input classes, dumps and reachability flags on pools of spellings incl. derived objects with a hashing history + real-code oracle on all pairs and triples",
         "Machine-checked for all values: equality is an equivalence and equal values have equal hash inputs for versions, string constraints and markers; for version constraints with no guard on reachable values (parser, intersect and union are proved never to build a degenerate range); for specifications and dependencies (transitivity under exact references, hash coherence unconditional, derivation cannot change the hash input); interchangeability (same allows/validate) for versions, ranges, constraints of the regular setting incl. unions, string constraints and coherent markers; re-parse closure with C15's string-level round trip. Every run compares the model's == / hash-input classes with real == / hash() on pools with many spellings of one value, fresh and derived after hashing, and evaluates reflexivity, symmetry, transitivity, hash coherence, set membership, interchangeability and re-parse equality on the real objects.",
-        TB + "Partial: allows-congruence outside the regular setting and coherence of every parsed marker are stated, checked per object at run time. Two VCS-reference classes are known findings (by-design prefix matching); three defects fixed.",
+        TB + "Partial: marker coherence (the constraint of a SingleMarker is the one its key denotes) is proved to be an invariant of parse_marker and of every operation of the marker algebra (intersect, union, cnf, dnf, of, simplify, invert, only, exclude, reduce) for every fuel and recursion stack, relative to two leaf-level constructor facts (parsed items; the SingleMarker(name, constraint) calls of _merge_single_markers) that are checked per object at run time and proved by C06 on its domain. Equal version constraints admit the same versions through allows for all non-unions, for unions in the regular setting and for `!=V` with any V; open: unions with local or same-release unequal bounds other than `!=V`. Two VCS-reference classes are known findings (by-design prefix matching); three defects fixed.",
         "DESIGN.md §4 C18",
     ),
     "C02": (
@@ -110,8 +113,10 @@ CLAIMED: dict[str, tuple[str, str, str, str]] = {
         "and platform conditions hold (by composition of C11's create_nested_marker exactness and C07's intersect soundness, relative to their "
         "leaf-level hypotheses); Requires-Dist line shape; no non-optional dependency with a satisfiable marker is dropped; an empty marker "
         "never yields an unconditional line (regression of fix 3213fc9); every line for a conditional dependency carries its condition; "
-        "Provides-Extra is exactly the declared keys, canonicalised once each; Requires-Python structure. Every run generates projects in the "
-        "legacy table form, runs the real Factory -> Metadata.from_package pipeline, compares selection, Requires-Dist text, marker tree, "
+        "Provides-Extra is exactly the declared keys, canonicalised once each; Requires-Python structure; for PEP 621 tables the Requires-Dist list is every entry's own line in table order with multiplicity, an "
+        "entry is left out only when its own marker is empty, whatever the other entries are (`entry_kept`, `requiresDist_length`). Every run "
+        "generates projects in the legacy table form AND as [project] tables in which one distribution is declared several times (different "
+        "markers, several extras, equal specifiers), runs the real Factory -> Metadata.from_package pipeline, compares selection, Requires-Dist text, marker tree, "
         "truth vectors, Requires-Python and Provides-Extra with the model, and lets the reference (packaging) evaluate every Requires-Dist "
         "line on candidate versions x environments x extras sets and Requires-Python on the interpreter series.",
         TB + "Partial: `requiresDist_faithful_partial` covers non-optional declarations with C13's print/parse fact and C07/C11 leaf facts as named hypotheses; version-specifier equivalence is C15's; set-level faithfulness of Requires-Python is a stated def checked by the oracle. Known finding single-version-precision-lt-3 (shared with C11).",
